@@ -592,7 +592,7 @@ func c18RunQueries(c *vx.Check) {
 						if len(got) < len(want) {
 							kind = "missing-columns"
 						}
-						c.Violate(fmt.Sprintf("Row from/to %s q=%s noStandardView=%v", kind, cfg.q, cfg.nsv), cases[k]+" "+rowQ[k], got, want)
+						c.Violate(fmt.Sprintf("Row from/to %s q=%s", kind, cfg.q), cases[k]+" "+rowQ[k], got, want)
 					} else {
 						c.Outcome("row " + got)
 						if len(wantC[k]) > 0 {
@@ -615,7 +615,7 @@ func c18RunQueries(c *vx.Check) {
 						if len(got) < len(want) {
 							kind = "missing-rows"
 						}
-						c.Violate(fmt.Sprintf("Rows from/to %s q=%s noStandardView=%v", kind, cfg.q, cfg.nsv), cases[k]+" "+rowsQ[k], got, want)
+						c.Violate(fmt.Sprintf("Rows from/to %s q=%s", kind, cfg.q), cases[k]+" "+rowsQ[k], got, want)
 					} else {
 						c.Outcome("rows " + got)
 						if len(wantR[k]) > 0 {
